@@ -2812,6 +2812,7 @@ BUFR_Dataset  *bufr_decode_message_subsets( BUFR_Message *msg, BUFR_Tables *tabl
                      free( bseq );
                      free( ddos );
                      free( nodes );
+                     bufr_free_sequence( bsq );
                      return dts;
                      }
                   bseq[i]->list = tmplist;
